@@ -2008,6 +2008,8 @@ class Result:
         result = self.copy()
         if l or p: result = result._group_p(l,p)
         if n     : result = result._global_n(n)
+        #evaluations shorter than n were dropped above so a p may no longer exist for every l
+        if (l or p) and n and n != 'min': result = result._group_p(l,p)
         return result
 
     def _remove(self, ids: Sequence[Tuple[int,int,int]], n=0) -> Sequence[int]:
